@@ -506,5 +506,6 @@ pub fn c05(tier: Tier, _seed: u64) -> Prop {
             }
             json!({"states": steps.max(1), "transitions": steps.max(1), "traces_validated_against_impl": steps, "nesting_program_steps": steps})
         }),
+        profiles: vec!["release"],
     }
 }
